@@ -78,14 +78,13 @@ Qed.
 
 (* the predicate of C05 in a quiescent state, from the invariant *)
 Lemma quiescent_ok : forall c s,
-  1 <= hw c -> Inv c s -> quiescent_parked s = true -> in_kf_class s = false -> c05_ok s = true.
+  0 <= hw c -> Inv c s -> quiescent_parked s = true -> c05_ok s = true.
 Proof.
-  intros c s Hhw (H1 & H2 & H3 & H4 & (HJw & HJr) & _) Hq Hkf.
+  intros c s Hhw (H1 & H2 & H3 & H4 & (HJw & HJr) & _) Hq.
   unfold quiescent_parked in Hq. destruct (io s) eqn:Eio; try discriminate.
   apply andb_true_iff in Hq. destruct Hq as [Hsel Hall]. apply negb_true_iff in Hsel.
   unfold sel_enabled in Hsel. apply orb_false_iff in Hsel. destruct Hsel as [Hsel Hrd].
   apply orb_false_iff in Hsel. destruct Hsel as [Hpull Hw]. subst w.
-  unfold in_kf_class in Hkf. apply orb_false_iff in Hkf. destruct Hkf as [Htaint Hpac].
   assert (Hwp : existsb will_pull (ws s) = false).
   { apply existsb_intro_false. intros j p Hj. pose proof (forallb_nth _ _ _ _ _ Hall Hj) as Hp.
     destruct p; simpl in Hp; try discriminate; reflexivity. }
@@ -102,11 +101,11 @@ Proof.
   (* no producer is parked *)
   assert (Hnp : forall j p, nth_error (ws s) j = Some p -> parked_o p = false).
   { intros j p Hj. destruct (parked_o p) eqn:Pp; auto. exfalso.
-    pose proof (H4 _ _ Hj) as Hp4. pose proof (existsb_false_nth _ _ _ _ _ Hpac Hj) as Hnk.
-    destruct p; simpl in Pp; try discriminate; simpl in Hp4, Hnk.
+    pose proof (H4 _ _ Hj) as Hp4.
+    destruct p; simpl in Pp; try discriminate; simpl in Hp4.
     - (* exception branch *)
-      destruct cap; [|discriminate]. destruct Hp4 as (Hwc & Hcn). rewrite Eio in Hcn. simpl in Hcn.
-      destruct (Hcn eq_refl) as [Hcn'|Hx]; [|discriminate].
+      destruct Hp4 as (Hwc & _ & Hcn). rewrite Eio in Hcn. simpl in Hcn.
+      destruct Hcn as [Hcn'|Hx]; [|discriminate].
       assert (Hc : closed s = false).
       { destruct (closed s) eqn:E; auto. rewrite (i3_c2 _ H3 E) in Hcn'. discriminate. }
       destruct (HnoW Hc) as (_ & Hx & _). congruence.
@@ -193,14 +192,13 @@ Qed.
 
 (* the same for quiescent states in which workers may also sit in the application *)
 Lemma quiescent_app_ok : forall c s,
-  1 <= hw c -> sb c <= hw c -> Inv c s -> quiescent_app s = true -> in_kf_class s = false -> app_ok c s = true.
+  0 <= hw c -> Inv c s -> quiescent_app s = true -> app_ok c s = true.
 Proof.
-  intros c s Hhw Hsb (H1 & H2 & H3 & H4 & _ & H6 & _) Hq Hkf.
+  intros c s Hhw (H1 & H2 & H3 & H4 & (HJw & _) & H6 & _) Hq.
   unfold quiescent_app in Hq. destruct (io s) eqn:Eio; try discriminate.
   apply andb_true_iff in Hq. destruct Hq as [Hsel Hall]. apply negb_true_iff in Hsel.
   unfold sel_enabled in Hsel. apply orb_false_iff in Hsel. destruct Hsel as [Hsel Hrd].
   apply orb_false_iff in Hsel. destruct Hsel as [Hpull Hw]. subst w.
-  unfold in_kf_class in Hkf. apply orb_false_iff in Hkf. destruct Hkf as [Htaint Hpac].
   assert (Hact : existsb act_tot (ws s) = false /\ existsb act_wc (ws s) = false /\ existsb act_cwf (ws s) = false).
   { repeat split; apply existsb_intro_false; intros j p Hj; pose proof (forallb_nth _ _ _ _ _ Hall Hj) as Hp;
       destruct p; simpl in Hp; try discriminate; reflexivity. }
@@ -211,20 +209,30 @@ Proof.
     - intros Hx. destruct (G1 Hx) as [?|[?|?]]; discriminate.
     - destruct (wc s); auto. destruct (G2 eq_refl) as [?|[?|?]]; discriminate.
     - destruct (cwf s); auto. destruct (G3 eq_refl) as [?|[?|?]]; discriminate. }
+  (* a parked producer serves requests[0], so nobody else is inside the application; then the
+     wake-up invariant of layer 5 applies as in the narrow case *)
   assert (Hnp : forall j p, nth_error (ws s) j = Some p -> parked_o p = false).
   { intros j p Hj. destruct (parked_o p) eqn:Pp; auto. exfalso.
-    pose proof (H4 _ _ Hj) as Hp4. pose proof (existsb_false_nth _ _ _ _ _ Hpac Hj) as Hnk.
-    destruct p; simpl in Pp; try discriminate; simpl in Hp4, Hnk.
-    - destruct cap; [|discriminate]. destruct Hp4 as (Hwc & Hcn). rewrite Eio in Hcn. simpl in Hcn.
-      destruct (Hcn eq_refl) as [Hcn'|Hx]; [|discriminate].
-      assert (Hc : closed s = false).
-      { destruct (closed s) eqn:E; auto. rewrite (i3_c2 _ H3 E) in Hcn'. discriminate. }
-      destruct (HnoW Hc) as (_ & Hx & _). congruence.
-    - destruct Hp4 as (Hns & Hcn). rewrite Eio in Hcn. simpl in Hcn. unfold notif_soon in Hns. rewrite Eio in Hns.
-      simpl in Hns. destruct Hcn as [Hcn'|Hx]; [|discriminate].
-      assert (Hc : closed s = false).
-      { destruct (closed s) eqn:E; auto. rewrite (i3_c2 _ H3 E) in Hcn'. discriminate. }
-      destruct (HnoW Hc) as (Hx & _ & _). destruct Hns as [Hns|[Hns|Hns]]; try discriminate. apply Hx. lia. }
+    assert (Hb : w_busy p = true) by (destruct p; simpl in Pp; try discriminate; reflexivity).
+    destruct (busy_exclusive s j p (i2_tok _ H2) Hj Hb) as (_ & _ & _ & Hoth).
+    assert (Hwp : existsb will_pull (ws s) = false).
+    { apply existsb_intro_false. intros k q Hk. destruct (Nat.eq_dec k j) as [->|Hne].
+      - rewrite Hj in Hk. inversion Hk; subst. destruct q; simpl in Pp; try discriminate; reflexivity.
+      - pose proof (Hoth _ _ Hne Hk) as Hnb. pose proof (forallb_nth _ _ _ _ _ Hall Hk) as Hq.
+        destruct q; simpl in Hq, Hnb; try discriminate; reflexivity. }
+    pose proof (H4 _ _ Hj) as Hp4.
+    assert (Hconn : conn s = true /\ (0 < total s \/ wc s = true)).
+    { destruct p; simpl in Pp; try discriminate; simpl in Hp4.
+      - destruct Hp4 as (Hwc & _ & Hcn). rewrite Eio in Hcn. simpl in Hcn. destruct Hcn as [Hcn|Hcn]; [|discriminate]. auto.
+      - destruct Hp4 as (Hns & Hcn). rewrite Eio in Hcn. simpl in Hcn. destruct Hcn as [Hcn|Hcn]; [|discriminate].
+        unfold notif_soon in Hns. rewrite Eio in Hns. simpl in Hns. destruct Hns as [Hns|[Hns|Hns]]; try discriminate.
+        split; auto. left. lia. }
+    destruct Hconn as (Hcn & Hwr).
+    assert (Hc : closed s = false).
+    { destruct (closed s) eqn:E; auto. rewrite (i3_c2 _ H3 E) in Hcn. discriminate. }
+    unfold Jw in HJw. rewrite Eio, Hpull, Hwp in HJw. simpl in HJw.
+    assert (Hpre : 0 < total s \/ wc s = true \/ cwf s = true) by tauto.
+    destruct (HJw Hc Hpre) as [Hx|[[Hx|[Hx|Hx]]|Hx]]; try discriminate; destruct Hx; discriminate. }
   unfold app_ok. repeat (apply andb_true_iff; split).
   - destruct (closed s) eqn:Ec; auto. simpl.
     destruct (HnoW eq_refl) as (Ht0 & _ & _).
@@ -241,53 +249,52 @@ Proof.
 Qed.
 
 (* ---- the theorems of C05 ------------------------------------------------------------- *)
+Lemma kf_taint : forall s, in_kf_class s = false -> taint s = false.
+Proof. intros s H. exact H. Qed.
+
 Theorem c05_partial : forall c nw sched,
-  1 <= hw c -> (0 < nw)%nat ->
+  0 <= hw c -> (0 < nw)%nat ->
   quiescent_parked (runc c nw sched) = true ->
   in_kf_class (runc c nw sched) = false ->
   c05_ok (runc c nw sched) = true.
 Proof.
   intros c nw sched Hhw Hnw Hq Hkf. apply (quiescent_ok c); auto.
-  apply inv_reachable; auto; try lia.
-  unfold in_kf_class in Hkf. apply orb_false_iff in Hkf. tauto.
+  apply inv_reachable; auto.
 Qed.
 
 (* stated for the widest notion of quiescence: no thread of the server is enabled *)
 Theorem c05_partial_stuck : forall c nw sched,
-  1 <= hw c -> (0 < nw)%nat ->
+  0 <= hw c -> (0 < nw)%nat ->
   quiescent (runc c nw sched) = true ->
   in_kf_class (runc c nw sched) = false ->
   quiescent_parked (runc c nw sched) = true /\ c05_ok (runc c nw sched) = true.
 Proof.
   intros c nw sched Hhw Hnw Hq Hkf.
-  assert (HI : Inv c (runc c nw sched)).
-  { apply inv_reachable; auto; try lia. unfold in_kf_class in Hkf. apply orb_false_iff in Hkf. tauto. }
+  assert (HI : Inv c (runc c nw sched)) by (apply inv_reachable; auto).
   pose proof (quiescent_is_parked c _ HI Hq) as Hp. split; auto. apply (quiescent_ok c); auto.
 Qed.
 
 Theorem c05_app_partial : forall c nw sched,
-  1 <= hw c -> sb c <= hw c -> (0 < nw)%nat ->
+  0 <= hw c -> (0 < nw)%nat ->
   quiescent_app (runc c nw sched) = true ->
   in_kf_class (runc c nw sched) = false ->
   app_ok c (runc c nw sched) = true.
 Proof.
-  intros c nw sched Hhw Hsb Hnw Hq Hkf. apply (quiescent_app_ok c); auto.
-  apply inv_reachable; auto; try lia.
-  unfold in_kf_class in Hkf. apply orb_false_iff in Hkf. tauto.
+  intros c nw sched Hhw Hnw Hq Hkf. apply (quiescent_app_ok c); auto.
+  apply inv_reachable; auto.
 Qed.
 
 (* the same, conjunct by conjunct, in words of the model *)
 Theorem c05_partial_unfolded : forall c nw sched s,
-  1 <= hw c -> (0 < nw)%nat -> s = runc c nw sched ->
-  quiescent_parked s = true -> taint s = false -> existsb parked_after_close (ws s) = false ->
+  0 <= hw c -> (0 < nw)%nat -> s = runc c nw sched ->
+  quiescent_parked s = true -> taint s = false ->
   (closed s = false -> total s = 0 /\ pend s = 0) /\
   (closed s = false -> nreq s = 0%nat /\ queue s = 0%nat /\ rx s = []) /\
   (forall j p, nth_error (ws s) j = Some p -> parked_o p = false) /\
   (wc s = true \/ cwf s = true -> closed s = true).
 Proof.
-  intros c nw sched s Hhw Hnw -> Hq Ht Hp.
-  assert (Hk : in_kf_class (runc c nw sched) = false) by (unfold in_kf_class; rewrite Ht, Hp; reflexivity).
-  pose proof (c05_partial c nw sched Hhw Hnw Hq Hk) as H. unfold c05_ok in H.
+  intros c nw sched s Hhw Hnw -> Hq Ht.
+  pose proof (c05_partial c nw sched Hhw Hnw Hq Ht) as H. unfold c05_ok in H.
   repeat (apply andb_true_iff in H; destruct H as [H ?]).
   repeat split.
   - unfold no_pending_output in H. rewrite H3 in H. simpl in H. apply andb_true_iff in H. destruct H. apply Z.eqb_eq; auto.
